@@ -106,7 +106,24 @@ func init() {
 			r.Violate("c15", "empty-alternative-pseudo-recovery", fmt.Sprintf("%d non-sentences accepted through the front end's own error recovery on '|' or ';', e.g. %s", o.Known, o.KnownSample),
 				map[string]any{"count": o.Known, "example": o.KnownSample})
 		}
-		r.Set("rule", "(i) product of the shipped ActionTable/GotoTable/ProductionsTable with the canonical LR(1) automaton of spec/gocc2.ebnf (read by an independent reader, \"error\"/\"empty\" ordinary terminals) over all 21 terminals and all non-terminals, to closure: same action kind, reductions by productions with equal head and body, same goto; (ii) the real front-end Parse (scripted scanner, reduce functions replaced by logging stubs) on every token sequence up to the all-sequences bound, every viable prefix up to the viable-prefix bound and, beyond the first offending token, the continuations of bounded length where the parser actually asks for more input (a parser that returns without requesting the next token cannot depend on it), trie order: accept <=> Earley sentence, logged productions = the documented grammar's reductions; distinct = distinct reduction traces")
+		// (iii) the front end as a whole on texts: real scanner + real parser
+		tout, err := runBatch(t, "c15text")
+		if err != nil {
+			ev.Inconsistent("c15text failed: %v", err)
+		}
+		var to struct {
+			Texts      int
+			Violations []struct{ Text, What string }
+		}
+		if err := json.Unmarshal(tout, &to); err != nil {
+			ev.Inconsistent("c15text output: %v\n%s", err, tout)
+		}
+		r.Set("texts_through_scanner_and_parser", to.Texts)
+		r.Add("evaluations", int64(to.Texts))
+		for _, v := range to.Violations {
+			r.Violate("c15", "text "+v.Text, fmt.Sprintf("text %q: %s", v.Text, v.What), map[string]any{"text": v.Text, "what": v.What})
+		}
+		r.Set("rule", "(i) product of the shipped ActionTable/GotoTable/ProductionsTable with the canonical LR(1) automaton of spec/gocc2.ebnf (read by an independent reader, \"error\"/\"empty\" ordinary terminals) over all 21 terminals and all non-terminals, to closure: same action kind, reductions by productions with equal head and body, same goto; (ii) the real front-end Parse (scripted scanner, reduce functions replaced by logging stubs) on every token sequence up to the all-sequences bound, every viable prefix up to the viable-prefix bound and, beyond the first offending token, the continuations of bounded length where the parser actually asks for more input (a parser that returns without requesting the next token cannot depend on it), trie order: accept <=> Earley sentence, logged productions = the documented grammar's reductions; (iii) the real scanner feeding the real parser on three well-formed texts and on each of them with one stray lexeme outside the documented token alphabet inserted at every gap (must be refused); distinct = distinct reduction traces")
 		r.Assumption("semantic actions are stubbed, so acceptance is the parser's own (syntactic) verdict")
 		_ = strings.Join
 		return r.Finish(nil)
